@@ -124,6 +124,131 @@ def pick_config(r, case):
     return cfg
 
 
+def extra_scenarios(w, cfg, cfg_shard, case, key, c, viol, configured_client, tick_max, a):
+    """run at the end of a world (own random stream: the scenarios above keep their draws):
+    K4x  unanswered connects during which something else happens to the client while the server stays silent: somebody who cannot
+         sign injects SERVER_HELLO datagrams (signed with a root key of his own, or junk) at seeded moments of the wait, or the
+         application calls disconnect() at a seeded moment of the wait.  The attempt is unanswered all the same: the callback is
+         invoked exactly once, with False, inside [timeout, timeout + 2 ticks], and the attempt ends DISCONNECTED
+    K3x  'every moment at which the link is cut' includes the moment right after the client has processed the SERVER_HELLO, before
+         any datagram of the encrypted session has reached it (link cut in both directions = the server died, or only towards
+         the client): DROPPED at T in [T_r + 5, T_r + 5 + 2 ticks], T_r = arrival of the SERVER_HELLO (the last datagram it accepted)"""
+    from mpgameserver import EllipticCurvePrivateKey
+    from mpgameserver.connection import HandshakeServerHelloMessage
+    from mon.engines import adversary as A
+    r2 = rng("C12x", *key)
+    w.remove_client(a)
+    status = lambda cl: getattr(cl.udp.conn.status, "value", 0) if cl.udp.conn is not None else 0
+    # ---------------- K4x
+    for kind in ("forged-hello-during-wait", "app-disconnect-during-wait"):
+        w.net.set(c2s=L.Policy(outage=True), s2c=L.Policy(outage=True))
+        with_cb = r2.random() < 0.8
+        x, eff = configured_client(with_cb)
+        t0 = w.clock.now
+        timeout = eff["connect_timeout"]
+        plan_ = []
+        if kind == "forged-hello-during-wait":
+            sub = r2.choice(["own-root", "own-root", "own-root-repeated", "junk-then-own-root"])
+            seq0 = r2.randint(1, 60000)
+            fake_root = EllipticCurvePrivateKey.new()
+            for i in range({"own-root": 1, "own-root-repeated": 3, "junk-then-own-root": 2}[sub]):
+                if sub == "junk-then-own-root" and i == 0:
+                    payload = r2.randbytes(r2.randint(1, 120))
+                else:
+                    m = HandshakeServerHelloMessage()
+                    m.token = r2.randrange(1, 1 << 31)
+                    m.server_pubkey = EllipticCurvePrivateKey.new().getPublicKey()
+                    m.salt = r2.randbytes(16)
+                    payload = m.dumpb(server_root_key=fake_root)
+                plan_.append((r2.uniform(0.02, 0.9) * timeout, (seq0 + i, payload)))
+        else:
+            sub = r2.choice(["at-once", "later", "later"])
+            plan_.append((0.0 if sub == "at-once" else r2.uniform(0.02, 0.9) * timeout, None))
+        plan_.sort(key=lambda e: e[0])
+        left_connecting = disc_at_timeout = False
+        while w.clock.now - t0 < timeout + 2 * tick_max + EPS:
+            while plan_ and w.clock.now - t0 >= plan_[0][0]:
+                _t, what = plan_.pop(0)
+                if what is None:
+                    try:
+                        x.udp.disconnect()
+                    except Exception as e:
+                        viol("disconnect-raised-while-connecting", "UdpClient.disconnect() %.3fs into an unanswered connect raised %r" % (w.clock.now - t0, e))
+                else:
+                    w.net.inject("s2c", x.addr, A.forge_crc("s2c", 2, what[0], 0, 0, [(what[0], 2, what[1])], int(w.clock.now), count=1), "forged:server-hello")
+            w.step()
+            if status(x) != 1 and w.clock.now - t0 < timeout - EPS:
+                left_connecting = True
+            if status(x) == 4 and w.clock.now - t0 >= timeout - EPS:
+                disc_at_timeout = True
+        w.step(3)
+        c.inc("k4_unanswered_connects")
+        c.inc("k4x_" + kind)
+        if left_connecting:
+            c.inc("k4x_status_left_connecting_before_the_timeout:" + kind)
+        tag = "%s/%s/%s" % (kind, sub, "with-callback" if with_cb else "without-callback")
+        good = True
+        # (a client that accepted a - forged - datagram reports DROPPED 5 s after it, also after the attempt has ended: the attempt
+        #  ended DISCONNECTED when that is the status in the window [timeout, timeout + 2 ticks]; later it is DISCONNECTED or DROPPED)
+        if not disc_at_timeout or status(x) not in (4, 5):
+            good = False
+            viol("unanswered-connect-never-disconnected:" + kind, "unanswered connect (%s): never DISCONNECTED within [timeout, timeout + 2 ticks]; status %s %.3fs after connect(); configured connect timeout %.3f" % (
+                tag, x.udp.conn.status, w.clock.now - t0, timeout))
+        if with_cb:
+            calls = [(t - t0, v) for t, v in x.connect_cb]
+            if [v for _t, v in calls] != [False]:
+                good = False
+                viol("unanswered-connect-callback-not-once-false:" + kind, "unanswered connect (%s): callback invocations %r within %.3fs, expected exactly one False (connect timeout %.3f)" % (
+                    tag, [(round(t, 4), v) for t, v in calls], w.clock.now - t0, timeout))
+            elif not (timeout - EPS <= calls[0][0] <= timeout + 2 * tick_max + EPS):
+                good = False
+                viol("connect-callback-outside-timeout-window:" + kind, "unanswered connect (%s): callback(False) %.4fs after connect(), configured timeout %.3f (+2 ticks of %.4f)" % (
+                    tag, calls[0][0], timeout, tick_max))
+        if good:
+            c.inc("k4x_ended_properly:" + kind)
+        w.remove_client(x)
+    # ---------------- K3x
+    w.net.heal(0.002)
+    cut = r2.choice([("s2c",), ("c2s", "s2c"), ("c2s", "s2c")])
+    seen = {}
+
+    def on_connected(cl):
+        if "t" not in seen:
+            seen["t"] = w.clock.now
+            w.net.filters.append(lambda direction, addr, d_, info: "drop" if addr == cl.addr and direction in cut else None)
+            w.net.heap[:] = [e for e in w.net.heap if not (e[3] == cl.addr and e[2] in cut)]
+            import heapq
+            heapq.heapify(w.net.heap)
+    # (an address the server has not seen: the earlier clients of this world are gone from the world, not yet from the server)
+    d, effd = configured_client(True, prepare=lambda cl: cl.on_connected.append(on_connected), addr=("10.7.%d.%d" % (r2.randint(0, 250), r2.randint(2, 250)), r2.randint(20000, 60000)))
+    t0 = w.clock.now
+    w.run_until(lambda ww: "t" in seen or status(d) in (4, 5), 400)
+    if "t" not in seen or [v for _t, v in d.connect_cb] != [True]:
+        c.inc("k3x_skipped_connect_timed_out_before_the_hello")      # (a connect timeout shorter than the round trip: outside K3x)
+    else:
+        t_r = seen["t"]
+        t_drop = None
+        st_seen = set()
+        while w.clock.now - t_r < 5.0 + 2 * tick_max + EPS:
+            w.step()
+            st_seen.add(status(d))
+            if t_drop is None and status(d) == 5:
+                t_drop = w.clock.now
+        w.step(3)
+        if t_drop is None and status(d) == 5:
+            t_drop = w.clock.now
+        c.inc("k3x_cuts_right_after_server_hello")
+        how = "link cut %s at the moment the client had processed the SERVER_HELLO (no datagram of the encrypted session reached it)" % ("in both directions" if len(cut) == 2 else "towards the client")
+        if t_drop is None:
+            viol("dead-peer-not-detected:client-cut-right-after-server-hello", "%s: client status %s %.3fs later, last_recv_time %r (hello arrived at %r)" % (
+                how, d.udp.conn.status, w.clock.now - t_r, d.udp.conn.last_recv_time, t_r))
+        elif t_drop - t_r < 5.0 - EPS or t_drop - t_r > 5.0 + 2 * tick_max + EPS:
+            viol("client-dropped-window", "%s: DROPPED %.4fs after the SERVER_HELLO, the last datagram it accepted (expected 5 s + 2 ticks)" % (how, t_drop - t_r))
+        else:
+            c.inc("k3x_client_in_window")
+    w.remove_client(d)
+
+
 def run_case(cfg_shard, case, out):
     key = [cfg_shard["seed"], cfg_shard["shard"], case]
     r = rng("C12", *key)
@@ -166,8 +291,10 @@ def run_case(cfg_shard, case, out):
             except Exception as e:
                 viol("setter-raised:%s-%s-connect" % (setters[which], when), "UdpClient.%s(%r) %s connect raised %r" % (setters[which], value, when, e))
 
-        def configured_client(with_cb, answered=True):
-            cl = w.add_client()
+        def configured_client(with_cb, answered=True, prepare=None, addr=None):
+            cl = w.add_client(addr=addr)
+            if prepare is not None:
+                prepare(cl)
             eff = dict(defaults)
             for which, order in cfg["order"].items():
                 if order in ("before", "both"):
@@ -503,6 +630,7 @@ def run_case(cfg_shard, case, out):
                         [round(g, 3) for g in gaps[:4]], eff["keep_alive"]))
                 elif gaps:
                     c.inc("k1_second_session_gaps_checked", len(gaps))
+        extra_scenarios(w, cfg, cfg_shard, case, key, c, viol, configured_client, tick_max, a)
         out["distinct"].add(h64(sorted((k, str(v)) for k, v in cfg.items())))
         if len(out["samples"]) < 2:
             out["samples"].append({"case": key, "config": cfg})
@@ -522,7 +650,7 @@ def run_shard(cfg):
             continue
         run_case(cfg, case, out)
     c = out["counters"]
-    n = c.get("k1_gaps_checked", 0) + c.get("k4_unanswered_connects", 0) + c.get("k3_link_cuts", 0) * 2 + c.get("k5_message_timeout_probes", 0) + c.get("setter_calls", 0)
+    n = c.get("k1_gaps_checked", 0) + c.get("k4_unanswered_connects", 0) + c.get("k3_link_cuts", 0) * 2 + c.get("k3x_cuts_right_after_server_hello", 0) + c.get("k5_message_timeout_probes", 0) + c.get("setter_calls", 0)
     return {"evaluations": n, "distinct": sorted(out["distinct"]), "counters": dict(c), "violations": out["violations"], "samples": out["samples"]}
 
 
@@ -535,7 +663,10 @@ def finish(tier, seed, results):
                          "setter_connect_timeout_after", "setter_message_timeout_before", "setter_message_timeout_after", "k5_keep_alive_lowered_mid_idle",
                          "k5_keep_alive_lowered_in_window", "k1_one_directional_streams", "k1_quiet_side_within_bound",
                          "same_ip_second_client_connected", "k4_reconnect_after_dropped_in_window", "k4_reconnect_after_heal_connected",
-                         "k5_settings_in_force_in_second_session", "worlds_configured_after_server_construction", "k3_worlds_with_replays_during_the_cut", "k3_worlds_with_slow_client_updates", "k2_lazy_reader_streams", "realsock_unanswered_connects_ended_properly"], inconclusive)
+                         "k5_settings_in_force_in_second_session", "worlds_configured_after_server_construction", "k3_worlds_with_replays_during_the_cut", "k3_worlds_with_slow_client_updates", "k2_lazy_reader_streams", "realsock_unanswered_connects_ended_properly",
+                         "k4x_forged-hello-during-wait", "k4x_app-disconnect-during-wait", "k4x_status_left_connecting_before_the_timeout:forged-hello-during-wait",
+                         "k4x_status_left_connecting_before_the_timeout:app-disconnect-during-wait", "k4x_ended_properly:forged-hello-during-wait",
+                         "k4x_ended_properly:app-disconnect-during-wait", "k3x_cuts_right_after_server_hello", "k3x_client_in_window"], inconclusive)
     cov = {
         "evaluations": m["evaluations"],
         "distinct_nontrivial": m["distinct_nontrivial"],
